@@ -192,5 +192,62 @@ def run(m: Model, r: Report, tier: str) -> None:
     r.check(m.has(rs, "self.set_session_with_hooks_handling(session, use_hooks)") and "return False" in ast.unparse(rs.node), "R6",
             f"{rs.qualname}#raw-recovery", "stack recovery must use the same raw session change and report failure", loc=rs.loc)
 
+    # a recovered stack really is the chain of sessions: _recover_stack reports success only if every change was answered positively
+    gr = CFG(rs.node)
+    rloops = [n for n in walk_no_nested(rs.node) if isinstance(n, ast.For)]
+    if len(rloops) != 1:
+        raise AnalysisError(f"{rs.qualname}: loop over the stack not found")
+    success = {n.id for n in gr.nodes.values() if n.kind == "loop" and n.ast is rloops[0]}
+    success |= {n.id for n in gr.nodes.values() if n.kind == "return" and isinstance(n.ast, ast.Return) and n.ast.value is not None and ast.unparse(n.ast.value) == "True"}
+    calls_ = [n for n in gr.nodes.values() if n.kind == "stmt" and n.ast is not None and "self.set_session_with_hooks_handling(" in ast.unparse(n.ast)]
+    if not calls_ or len(success) < 2:
+        raise AnalysisError(f"{rs.qualname}: session change call / success exits not found")
+    for c in calls_:
+        leak = set()
+        for b, k in gr.succ[c.id]:
+            if k == "exc":
+                leak |= gr.reachable_from(b) & success
+        r.check(not leak, "R3", f"{rs.qualname}#failed-change-fails-recovery",
+                "after a session change of the stack re-entry raised (timeout, connection loss) the function can still continue with the next session / return True: "
+                + ", ".join(repr(gr.nodes[x]) for x in sorted(leak)) + "; the scan then probes from a session that is not the one on the stack", loc=rs.loc)
+    negc = [n for n in gr.nodes.values() if n.kind == "cond" and n.ast is not None and "NegativeResponse" in ast.unparse(n.ast) and "isinstance" in ast.unparse(n.ast)]
+    if not negc:
+        raise AnalysisError(f"{rs.qualname}: negative response test not found")
+    for c in negc:
+        tb = [b for b, k in gr.succ[c.id] if k == "n"][0]
+        leak = gr.reachable_from(tb, edge_kinds=("n",)) & success
+        r.check(not leak, "R3", f"{rs.qualname}#negative-change-fails-recovery",
+                "a negative response to a session change of the stack does not end the recovery with failure", loc=rs.loc)
+
+    # per-scan state: containers the scanner fills are created per instance
+    sc_cls = m.require_class(f"{SCAN}.SessionsScanner")
+    n_cont = 0
+    for k in m.mro(sc_cls):
+        if not k.module.name.startswith("gallia.command"):
+            continue
+        for attr, val in k.class_attrs.items():
+            mutable = isinstance(val, (ast.List, ast.Dict, ast.Set, ast.ListComp, ast.DictComp, ast.SetComp)) or \
+                (isinstance(val, ast.Call) and ast.unparse(val.func) in ("list", "dict", "set", "defaultdict", "collections.defaultdict", "deque"))
+            if not mutable:
+                continue
+            n_cont += 1
+            mutated = [f.qualname for c2 in m.mro(sc_cls) for f in c2.methods.values() for n in ast.walk(f.node)
+                       if (isinstance(n, ast.Call) and isinstance(n.func, ast.Attribute) and n.func.attr in ("append", "extend", "add", "update", "insert", "setdefault", "pop", "remove", "clear")
+                           and ast.unparse(n.func.value) == f"self.{attr}")
+                       or (isinstance(n, (ast.Assign, ast.AugAssign)) and any(isinstance(t, ast.Subscript) and ast.unparse(t.value) == f"self.{attr}"
+                                                                               for t in (n.targets if isinstance(n, ast.Assign) else [n.target])))]
+            rebound = any(isinstance(n, (ast.Assign, ast.AnnAssign)) and ast.unparse(n.targets[0] if isinstance(n, ast.Assign) else n.target) == f"self.{attr}"
+                          for c2 in m.mro(sc_cls) if "__init__" in c2.methods for n in ast.walk(c2.methods["__init__"].node))
+            r.check(not mutated or rebound, "R4", f"{k.qualname}.{attr}#per-instance",
+                    f"{attr} is a mutable class attribute that {sorted(set(mutated))[:2]} fill in place: every scanner instance of the process shares it, "
+                    "so a scan also reports the sessions found by earlier scans", loc=k.loc)
+    init_ = sc_cls.methods.get("__init__")
+    res_init = init_ is not None and any(isinstance(n, (ast.Assign, ast.AnnAssign)) and ast.unparse(n.targets[0] if isinstance(n, ast.Assign) else n.target) == "self.result"
+                                           and isinstance(n.value, ast.List) and not n.value.elts for n in ast.walk(init_.node))
+    res_main = any(isinstance(n, (ast.Assign, ast.AnnAssign)) and ast.unparse(n.targets[0] if isinstance(n, ast.Assign) else n.target) == "self.result"
+                   for n in ast.walk(fn.node))
+    r.check(res_init or res_main, "R4", f"{sc_cls.qualname}.result#fresh-per-scan",
+            "self.result is not created per scanner instance (empty list in __init__) nor assigned by main()", loc=sc_cls.loc)
+
     r.assumptions += ["the ECU changes session only on a positive DiagnosticSessionControl response"]
     r.not_decided += ["exactness of the reported set over all session graphs (a statement about the search on runtime graphs)"]
